@@ -53,6 +53,12 @@ CLAIMED = {
   text="Synthetic states (1..300 validators, sizes straddling the committee-count thresholds, activation/exit epochs within two epochs of now, effective balances from 0 to MAX, random mixes, any slot, every fork's state type, mainnet/minimal/custom presets) are loaded into the library from reference-encoded bytes; NewEpochsContext's committees for previous/current/next epoch, proposers of every slot of the current epoch and ComputeNextSyncCommittee (members, indices, aggregate key) must equal refspec's; committees must partition the active set with sizes differing by at most one. The same comparison runs with the live context at every epoch boundary of generated chains. Registries are sampled.",
   note="Trusted: refspec (compute_shuffled_index per index, no caches) and the BLS library for key aggregation. States with an empty active set are excluded (known finding F-C02-05). Registry invariants the spec maintains are respected by the generator.",
   ref="§3 C07"),
+ "C08": dict(
+  technique="model-based property testing (rapid): generated chains with deposits, upgrades, sync-period boundaries, fork and reload actions; after every slot and block the live EpochsContext is compared field by field with NewEpochsContext(state); metamorphic continuation from re-read bytes with a fresh context; directed templates for deposit bursts and for chains sharing one pubkey cache with diverging deposit histories",
+  level="exploration",
+  text="The oracle is the library's own from-scratch constructor, so no reference model is trusted for oracle 1: every exported field of the long-lived context (three shufflings with committees, proposers, effective balances, total stake and its square root, both sync committees) and the pubkey-cache lookups for every index and registered key must equal a freshly built context after every single slot and block of chains of ~6-14 epochs; from drawn reload points a second instance continues from the serialized state with a fresh context and must give identical verdicts and roots for all remaining blocks; siblings created with CopyState+Clone are advanced differently and must not disturb each other, including siblings that add different validators at the same index through the shared pubkey cache, and a sibling that replays the same deposits later. Chains are sampled.",
+  note="Steps on which the library already diverges from the reference (C01/C02's subject) end the case without a verdict; blocks are built by refspec (trusted as generator, not as oracle, here). States with an empty active set are excluded (known finding F-C02-05).",
+  ref="§3 C08"),
 }
 PENDING_REASON = "check not built yet in this session (designed in DESIGN.md §3; will be claimed when its machinery is committed)"
 
